@@ -14,12 +14,12 @@ for t,mx in types:
             match bcd_fold(b, b.len(), {mx}) {{ Some(v) => Some((v as {t}, b.len() as int)), None => None }}
         }}
         open spec fn progresses() -> bool {{ false }}
-        //@ fn exp:zvt_builder | impl Encoding<{t}> for Bcd | encode | mod=encoding all-loops
+        //@ fn exp:zvt_builder | impl Encoding<{t}> for Bcd | encode | mod=encoding all-loops props=C17,C03
         //@ loop 0
                 invariant rv@ + bcd_rev(k as nat) =~= bcd_rev(*input as nat),
                 decreases k,
         //@ end
-        //@ fn exp:zvt_builder | impl Encoding<{t}> for Bcd | decode | mod=encoding all-loops n3=d props=C02
+        //@ fn exp:zvt_builder | impl Encoding<{t}> for Bcd | decode | mod=encoding all-loops n3=d props=C02,C17
         //@ loop 0
                 invariant bcd_fold(data@, iter.index@ as nat, {mx}) == Some(rv as nat),
         //@ end
